@@ -109,7 +109,7 @@ impl Prop for C10 {
     }
     fn shapes(&self, tier: Tier) -> Vec<Shape> {
         let max = match tier {
-            Tier::Quick => 4,
+            Tier::Quick => 5,
             Tier::Thorough => 6,
         };
         let mut v = vec![];
@@ -253,7 +253,7 @@ impl Prop for C10 {
                 "similar::DiffOp::{apply_to_hook, grow_left/right, shrink_left/right, shift_left/right, is_empty}",
                 "similar::algorithms::utils::{common_prefix_len, common_suffix_len}",
             ],
-            bounds: format!("all valid scripts over sequences of lengths n,m in 0..={}: every lattice path (0,0)->(n,m) in unit steps equal/delete/insert, cut into runs in every way (split Equal runs, insert-before-delete, alternating runs), with exact carried indices; items symbolic, only the equalities stated by the script's Equal runs are assumed; pipelines Compact, Replace, Compact<Replace>; plus offset-lookup / padded layouts for n+m<=5", match tier { Tier::Quick => 4, Tier::Thorough => 6 }),
+            bounds: format!("all valid scripts over sequences of lengths n,m in 0..={}: every lattice path (0,0)->(n,m) in unit steps equal/delete/insert, cut into runs in every way (split Equal runs, insert-before-delete, alternating runs), with exact carried indices; items symbolic, only the equalities stated by the script's Equal runs are assumed; pipelines Compact, Replace, Compact<Replace>; plus offset-lookup / padded layouts for n+m<=5", match tier { Tier::Quick => 5, Tier::Thorough => 6 }),
             outside: "longer sequences; scripts whose carried indices are not exact (the adapters' input contract)".into(),
             assumptions: vec!["the input script is valid: positive lengths, exact positions, Equal runs pair equal items (assumed into the path condition before the run)".into()],
             required_witnesses: if self.0 { vec!["paths_that_took_a_compaction_swap", "scripts_with_split_equal_runs"] } else { vec!["paths_that_took_a_compaction_swap", "scripts_with_insert_before_delete", "scripts_with_split_equal_runs", "paths_with_replace_call"] },
